@@ -26,7 +26,12 @@
 //!  * `if` / `match` / lambda need parentheses as operands of binary / unary operators;
 //!  * a lambda needs parameter annotations when there is no expected type (plain `let f = ...`);
 //!  * nullary generic constructors / functions need explicit type arguments (`Option.None<int>()`);
-//!  * imports only at the top of a module; private members are invisible in other modules;
+//!  * imports only at the top of a module; a `private` member is only reachable from inside its own
+//!    class (the checker is stricter than the spec's "module private"): private callables are only
+//!    called from their class, and each gets a public `...Pub` forwarder;
+//!  * `a.b < c` is parsed as the start of explicit type arguments (`a.b<...>`): a left operand of `<`
+//!    that ends in a field access is parenthesised;
+//!  * `val` is a keyword (not usable as a field name);
 //!  * no implicit widening to an interface type: interfaces are only usable as bounds;
 //!  * function names must be lower-case identifiers; `self` & co are forbidden identifiers.
 use crate::front::Project;
@@ -117,9 +122,6 @@ impl Iv {
   }
   fn hull(self, o: Iv) -> Iv {
     Iv { lo: self.lo.min(o.lo), hi: self.hi.max(o.hi) }
-  }
-  fn has(self, v: i64) -> bool {
-    self.lo <= v && v <= self.hi
   }
   fn add(self, o: Iv) -> Iv {
     Iv { lo: self.lo + o.lo, hi: self.hi + o.hi }
@@ -248,15 +250,6 @@ impl Ex {
   }
 }
 
-/// tracked Vec local of main (straight-line code only)
-#[derive(Clone, Debug)]
-struct VecVar {
-  name: String,
-  elem: Ty,
-  len: usize,
-  wide: bool,
-}
-
 struct G<'a> {
   cfg: &'a GenConfig,
   rng: Rng,
@@ -288,7 +281,6 @@ struct G<'a> {
   lam_caps: Vec<(bool, bool)>,
   cur_mod: usize,
   cur_cls: usize,
-  tparams_in_scope: Vec<String>,
 }
 
 #[derive(Clone, Debug)]
@@ -349,7 +341,6 @@ impl<'a> G<'a> {
       lam_caps: Vec::new(),
       cur_mod: 0,
       cur_cls: 0,
-      tparams_in_scope: Vec::new(),
     }
   }
 
@@ -1018,11 +1009,12 @@ impl<'a> G<'a> {
         if n == 0 {
           return Ex::atom(format!("List.nil<{}>()", self.ty_s(t)));
         }
-        let first = self.expr(t, d1);
+        // the elements sit in receiver positions of the cons chain: keep them free of effects
+        let first = self.pure_expr(t, d1);
         let mut s = format!("List.of({})", first.s);
         let mut pure_ = first.pure_;
         for _ in 1..n {
-          let e = self.expr(t, d1.min(1));
+          let e = self.pure_expr(t, d1.min(1));
           pure_ &= e.pure_;
           s.push_str(&format!(".cons({})", e.s));
         }
@@ -1541,7 +1533,7 @@ impl<'a> G<'a> {
       Ty::Str => code.to_string(),
       Ty::Unit => "\"unit\"".to_string(),
       Ty::Par(p) => format!("sh{p}({code})"),
-      Ty::Cls(c, args) => {
+      Ty::Cls(_, args) => {
         if args.is_empty() {
           format!("{code}.show()")
         } else {
@@ -1859,6 +1851,9 @@ impl<'a> G<'a> {
     if vs.len() > 2 {
       self.feat("enum:>2-variants");
     }
+    if vs.len() == 1 && vs[0].payload.len() == 1 {
+      self.feat("enum:one-variant-one-payload");
+    }
     if vs.iter().any(|v| v.payload.len() >= 2) {
       self.feat("enum:many-payload");
     }
@@ -2070,7 +2065,7 @@ impl<'a> G<'a> {
             arms.push(format!("{}({}) -> {s}", v.name, names.join(", ")));
           }
         }
-        format!("match this {{\n      {},\n    }}", arms.join(",\n      "))
+        if arms.len() <= 3 { format!("match this {{ {} }}", arms.join(", ")) } else { format!("match this {{\n      {},\n    }}", arms.join(",\n      ")) }
       }
       _ => return,
     };
@@ -2094,7 +2089,7 @@ impl<'a> G<'a> {
   fn show_member(&mut self, t: &Ty, code: &str, me: usize, pass: &str) -> String {
     match t {
       Ty::Cls(c, args) if *c == me && !args.is_empty() => format!("{code}.show({pass})"),
-      Ty::Cls(c, args) if !args.is_empty() => {
+      Ty::Cls(_, args) if !args.is_empty() => {
         // generic class instantiated with our own parameter or closed types
         let lams: Vec<String> = args
           .iter()
@@ -2107,7 +2102,6 @@ impl<'a> G<'a> {
             }
           })
           .collect();
-        let _ = c;
         format!("{code}.show({})", lams.join(", "))
       }
       _ => self.show(t, code),
@@ -2675,6 +2669,9 @@ impl<'a> G<'a> {
       text.push_str(&format!("    if {cond} {blk} else {{ {result} }}"));
     }
     self.classes[c].members.push(text);
+    if self.cost > 0 {
+      self.feat("call-in-loop");
+    }
     let cost = 1 + (n_trip as u32) * (2 + self.cost);
     self.funcs.push(Func { cls: c, name, method: false, private: false, params: sig, ret: ret.clone(), ret_iv, effects: self.effects, cost, scripted: true });
     self.loops.push(LoopInfo {
@@ -2754,7 +2751,10 @@ impl<'a> G<'a> {
     self.classes[h].members.push("function <A, B> apply(f: (A) -> B, a: A): B = f(a)".into());
     self.classes[h].members.push("function <A> twice(f: (A) -> A, a: A): A = f(f(a))".into());
     self.classes[h].members.push("function <A, B> swap(p: Pair<A, B>): Pair<B, A> = (p.e1, p.e0)".into());
-    self.classes[h].members.push(format!("function <A, B, C> compose(f: (A) -> B, g: (B) -> C): (A) -> C = (x) -> g(f(x))"));
+    if self.pct(35) {
+      self.classes[h].members.push("function <A, B, C> compose(f: (A) -> B, g: (B) -> C): (A) -> C = (x) -> g(f(x))".to_string());
+      self.helpers.insert("compose".into(), 0);
+    }
     self.classes[h].members.push(format!("function <T> pick(c: bool, a: T, b: T): T = if c {{ a }} else {{ {hn}.id(b) }}"));
     self.helpers.insert("generic-fns".into(), 0);
     self.feat("generic-method");
@@ -3187,7 +3187,7 @@ impl<'a> G<'a> {
       let e = Ex::atom(format!("{a}.eq({b})"));
       self.let_print(out, "veq", &Ty::Bool, &e);
     }
-    if !self.ended && self.pct(2 * 3) && self.min_lines_so_far(out) >= 5 {
+    if !self.ended && self.pct(10) && self.min_lines_so_far(out) >= 5 {
       // deliberate out-of-bounds ending (~2% of programs: a third of programs have a Vec scenario)
       self.feat("ending:vec-bounds");
       let k = self.rng.range(0, 3) as usize;
@@ -3306,6 +3306,13 @@ impl<'a> G<'a> {
   }
 
   fn sc_generic_class(&mut self, out: &mut Vec<String>) {
+    self.sc_generic_class_once(out);
+    if self.one_in(2) {
+      self.sc_generic_class_once(out);
+    }
+  }
+
+  fn sc_generic_class_once(&mut self, out: &mut Vec<String>) {
     let gens: Vec<usize> = self.data_classes().into_iter().filter(|c| !self.classes[*c].tps.is_empty() && self.classes[*c].tps[0].1.is_none()).collect();
     if gens.is_empty() {
       return;
@@ -3463,7 +3470,7 @@ impl<'a> G<'a> {
           let pr = self.print_var(&q, &a, &q);
           out.push(pr);
         }
-        4 => {
+        4 if self.helpers.contains_key("compose") => {
           let f = self.lambda(&[Ty::Int], &Ty::Int, d + 1, true);
           let g = self.lambda(&[Ty::Int], &Ty::Str, d + 1, true);
           let c = self.fresh("cm");
@@ -3988,7 +3995,7 @@ impl<'a> G<'a> {
     ];
     let mut chosen: Vec<u8> = menu.iter().filter(|(_, p)| self.rng.chance(*p, 100)).map(|(i, _)| *i).collect();
     self.rng.shuffle(&mut chosen);
-    let budget = (cfg.max_stmts / 2).clamp(3, 10);
+    let budget = (cfg.max_stmts / 3).clamp(2, 6);
     chosen.truncate(budget);
     // loops and calls of everything generated are always there, somewhere in the middle
     let pos = self.rng.below(chosen.len() + 1);
@@ -4029,7 +4036,7 @@ impl<'a> G<'a> {
         16 => self.stmt_iflet(&mut out, d),
         17 => self.stmt_destructure(&mut out, true),
         100 => self.sc_loops(&mut out),
-        _ => self.sc_calls(&mut out, cfg.max_stmts),
+        _ => self.sc_calls(&mut out, cfg.max_stmts / 3 + 2),
       }
     }
     // never fewer than a handful of lines
